@@ -88,7 +88,12 @@ pub fn drive_tokio<T: Show, F: Future<Output = T>>(mk: impl FnOnce() -> F, sched
         let fut = mk();
         log("created".to_string());
         let ctl = tokio::spawn(async move {
-            for batch in schedule { for _ in 0..3 { tokio::task::yield_now().await; } for g in batch { open_gate(g); } }
+            // between two batches every task gets enough scheduling rounds to run as far as its gates allow (quiescence)
+            for (i, batch) in schedule.into_iter().enumerate() {
+                for _ in 0..24 { tokio::task::yield_now().await; }
+                log(format!("batch:{}", i));
+                for g in batch { open_gate(g); }
+            }
         });
         log("poll".to_string());
         let r = tokio::time::timeout(std::time::Duration::from_secs(10), fut).await;
@@ -355,6 +360,45 @@ def poll_diff(p, rust_line, model_line):
     return None
 
 
+def batch_diff(p, rust_line, model_line):
+    """Task-spawning kinds on tokio, programs in which nothing fails: the events between two batches of gate openings, as a
+    multiset, vs the poll-level model's events of the corresponding poll (every chain runs as far as its own gates allow,
+    whatever its siblings wait for).  Returns a description of the first difference or None."""
+    f = rust_line.split("\t")
+    if f[0] in ("BLOCKED", "MISSING", "STUCK"):
+        return None
+    segs, cur = [], None
+    for (t, tn, tid) in k2.parse_rust_events(f[1] if len(f) > 1 else "", p.base):
+        if t == "poll":
+            cur = []
+            segs.append(cur)
+        elif t.startswith("batch:") and cur is not None:
+            cur = []
+            segs.append(cur)
+        elif cur is not None and (t.startswith(("cb:", "cap:", "hc:")) or t == "hd"):
+            cur.append(t)
+    mf = model_line.split("\t")
+    if not mf[0].startswith("ok"):
+        return None
+    m_polls = [k2.lean_flat("x\t" + seg, p)[1] for seg in (mf[1].split(" | ") if len(mf) > 1 else [])]
+    for i in range(max(len(segs), len(m_polls))):
+        a = sorted(segs[i]) if i < len(segs) else []
+        b = sorted(m_polls[i]) if i < len(m_polls) else []
+        if a != b:
+            return ("events while the gates of batches 0..%d are open: real %r, model %r (a branch must run as far as its own "
+                    "gates allow, whatever its siblings are waiting for)" % (i - 1, a, b))
+    return None
+
+
+def nothing_fails(p):
+    outs = [op.out[0] for br in p.branches for op in br["ops"]]
+    if p.handler:
+        outs.append(p.handler["out"][0])
+        outs.append(p.handler.get("def_out", ("ok", 0))[0])
+    caps = [op for br in p.branches for op in br["ops"] if op.block and op.cap_panics]
+    return all(o == "ok" for o in outs) and not caps
+
+
 def body(ctx, kinds=("a1t0s0", "a1t1s0", "a1t0s1", "a1t1s1"), n=None, profiles=None, **kw):
     n = (ctx.n(70, 700)) if n is None else n
     params = dict(max_depth=3, max_branches=3, fail_rate=(1, 6), handler_rate=(1, 3), block_rate=(1, 5), name_rate=(1, 4))
@@ -396,7 +440,7 @@ def body(ctx, kinds=("a1t0s0", "a1t1s0", "a1t0s1", "a1t1s1"), n=None, profiles=N
     ctx.out.coverage["async_model_runs_compared"] = ctx.out.coverage.get("async_model_runs_compared", 0) + len(cov)
     # the poll-level model (Async.lean / AsyncSpec.lean): its predicted events per poll under this gate schedule, for the
     # kinds that run on the deterministic executor
-    det = [(p, r) for p, r in zip(progs, reals) if not p.is_spawn()]
+    det = [(p, r) for p, r in zip(progs, reals) if (not p.is_spawn()) or nothing_fails(p)]
     apoll = k1.run_driver(["APOLL\t%s\t%s\t%s\t%s\t%s" % (p.pid, p.kind, r.structure, p.world_gated(),
                            "|".join(",".join(str(g) for g in b) for b in p.schedule) if p.schedule else "-") for p, r in det]) if det else []
     predicted = {p.pid: (o.split("\t", 1)[1] if "\t" in o else o) for (p, r), o in zip(det, apoll)}
@@ -423,7 +467,12 @@ def body(ctx, kinds=("a1t0s0", "a1t1s0", "a1t0s1", "a1t1s1"), n=None, profiles=N
     for p in progs:
         rl = got.get(p.pid, "MISSING\t")
         problems = judge(p, rl, spec[p.pid])
-        if p.pid in predicted:
+        if p.pid in predicted and p.is_spawn():
+            d = batch_diff(p, rl, predicted[p.pid])
+            ctx.out.coverage["batch_level_compared_tokio"] = ctx.out.coverage.get("batch_level_compared_tokio", 0) + 1
+            if d:
+                problems.append("batch-level (tokio): " + d)
+        elif p.pid in predicted:
             d = poll_diff(p, rl, predicted[p.pid])
             ctx.out.coverage["poll_level_compared"] = ctx.out.coverage.get("poll_level_compared", 0) + 1
             if d and not problems:
